@@ -1,5 +1,6 @@
 /-
-Helper lemmas for C10/C02: the session-window state machine.  Core Lean only.
+Helper lemmas for C10/C02: the session-window state machine (several open sessions per key,
+merge on bridge).  Core Lean only.
 -/
 import SsqlVerif.Model.Session
 set_option autoImplicit false
@@ -9,7 +10,124 @@ set_option linter.unusedSimpArgs false
 namespace Session
 open Wm
 
-/-- shape of an open session: its bounds are exactly its rows' extremes, end = latest + timeout -/
+/-! ### extremes over a list of sessions -/
+
+theorem maxLast_ge_init (l : List Sess) (m : Int) : m ≤ maxLast l m := by
+  induction l generalizing m with
+  | nil => exact Int.le_refl _
+  | cons s ss ih =>
+    simp only [maxLast]
+    by_cases h : m < s.lastActive
+    · rw [if_pos h]; have := ih s.lastActive; omega
+    · rw [if_neg h]; exact ih m
+
+theorem maxLast_ge_mem (l : List Sess) (m : Int) (s : Sess) (hs : s ∈ l) : s.lastActive ≤ maxLast l m := by
+  induction l generalizing m with
+  | nil => cases hs
+  | cons a ss ih =>
+    simp only [maxLast]
+    rcases List.mem_cons.mp hs with h | h
+    · subst h
+      by_cases h' : m < s.lastActive
+      · rw [if_pos h']; exact maxLast_ge_init ss s.lastActive
+      · rw [if_neg h']; have := maxLast_ge_init ss m; omega
+    · exact ih _ h
+
+theorem maxLast_attained (l : List Sess) (m : Int) : maxLast l m = m ∨ ∃ s ∈ l, maxLast l m = s.lastActive := by
+  induction l generalizing m with
+  | nil => exact Or.inl rfl
+  | cons a ss ih =>
+    simp only [maxLast]
+    rcases ih (if m < a.lastActive then a.lastActive else m) with h | ⟨s, hs, h⟩
+    · by_cases hlt : m < a.lastActive
+      · rw [if_pos hlt] at h ⊢; exact Or.inr ⟨a, by simp, h⟩
+      · rw [if_neg hlt] at h ⊢; exact Or.inl h
+    · exact Or.inr ⟨s, by simp [hs], h⟩
+
+theorem minStart_le_init (l : List Sess) (m : Int) : minStart l m ≤ m := by
+  induction l generalizing m with
+  | nil => exact Int.le_refl _
+  | cons s ss ih =>
+    simp only [minStart]
+    by_cases h : s.start < m
+    · rw [if_pos h]; have := ih s.start; omega
+    · rw [if_neg h]; exact ih m
+
+theorem minStart_le_mem (l : List Sess) (m : Int) (s : Sess) (hs : s ∈ l) : minStart l m ≤ s.start := by
+  induction l generalizing m with
+  | nil => cases hs
+  | cons a ss ih =>
+    simp only [minStart]
+    rcases List.mem_cons.mp hs with h | h
+    · subst h
+      by_cases h' : s.start < m
+      · rw [if_pos h']; exact minStart_le_init ss s.start
+      · rw [if_neg h']; have := minStart_le_init ss m; omega
+    · exact ih _ h
+
+theorem minStart_attained (l : List Sess) (m : Int) : minStart l m = m ∨ ∃ s ∈ l, minStart l m = s.start := by
+  induction l generalizing m with
+  | nil => exact Or.inl rfl
+  | cons a ss ih =>
+    simp only [minStart]
+    rcases ih (if a.start < m then a.start else m) with h | ⟨s, hs, h⟩
+    · by_cases hlt : a.start < m
+      · rw [if_pos hlt] at h ⊢; exact Or.inr ⟨a, by simp, h⟩
+      · rw [if_neg hlt] at h ⊢; exact Or.inl h
+    · exact Or.inr ⟨s, by simp [hs], h⟩
+
+/-! ### sorting is a permutation -/
+
+theorem mem_insertSorted (s : Sess) (m : List Sess) (y : Sess) : y ∈ insertSorted s m ↔ y = s ∨ y ∈ m := by
+  induction m with
+  | nil => simp [insertSorted]
+  | cons a m ih =>
+    simp only [insertSorted]
+    split
+    · simp
+    · simp only [List.mem_cons, ih]
+      constructor
+      · rintro (h | h | h)
+        · exact Or.inr (Or.inl h)
+        · exact Or.inl h
+        · exact Or.inr (Or.inr h)
+      · rintro (h | h | h)
+        · exact Or.inr (Or.inl h)
+        · exact Or.inl h
+        · exact Or.inr (Or.inr h)
+
+theorem mem_sortSess (l : List Sess) (x : Sess) : x ∈ sortSess l ↔ x ∈ l := by
+  induction l with
+  | nil => simp [sortSess]
+  | cons a l ih =>
+    have ih' : x ∈ List.foldr insertSorted [] l ↔ x ∈ l := ih
+    simp only [sortSess, List.foldr_cons]
+    rw [mem_insertSorted, List.mem_cons]
+    exact ⟨fun h => h.elim Or.inl (fun h => Or.inr (ih'.mp h)), fun h => h.elim Or.inl (fun h => Or.inr (ih'.mpr h))⟩
+
+theorem perm_sortSess (l : List Sess) : (sortSess l).Perm l := by
+  have hins : ∀ (s : Sess) (m : List Sess), (insertSorted s m).Perm (s :: m) := by
+    intro s m
+    induction m with
+    | nil => exact List.Perm.refl _
+    | cons a m ih =>
+      simp only [insertSorted]
+      split
+      · exact List.Perm.refl _
+      · exact (List.Perm.cons a ih).trans (List.Perm.swap s a m)
+  induction l with
+  | nil => exact List.Perm.refl _
+  | cons a l ih =>
+    simp only [sortSess, List.foldr_cons] at ih ⊢
+    exact (hins a _).trans (List.Perm.cons a ih)
+
+theorem mem_touched (w : SWin) (k : Key) (r : Row) (s : Sess) :
+    s ∈ touched w k r ↔ s ∈ w.sessions ∧ touches w.timeout k r.ts s = true := by
+  unfold touched; rw [mem_sortSess, List.mem_filter]
+
+/-! ### shape of an open session -/
+
+/-- its bounds are exactly its rows' extremes, end = latest + timeout -/
 structure SessOk (timeout : Int) (s : Sess) : Prop where
   hne : s.rows ≠ []
   hstop : s.stop = s.lastActive + timeout
@@ -17,58 +135,91 @@ structure SessOk (timeout : Int) (s : Sess) : Prop where
   hmin : ∃ r ∈ s.rows, r.ts = s.start
   hmax : ∃ r ∈ s.rows, r.ts = s.lastActive
 
-theorem newSess_ok (k : Key) (r : Row) (timeout : Int) : SessOk timeout (newSess k r timeout) :=
+theorem newSess_ok (k : Key) (r : Row) (timeout : Int) (p : Nat) : SessOk timeout (newSess k r timeout p) :=
   { hne := by simp [newSess]
     hstop := rfl
     hbounds := by intro x hx; simp [newSess] at hx; subst hx; exact ⟨Int.le_refl _, Int.le_refl _⟩
     hmin := ⟨r, by simp [newSess], rfl⟩
     hmax := ⟨r, by simp [newSess], rfl⟩ }
 
-theorem extend_ok (s : Sess) (r : Row) (timeout : Int) (h : SessOk timeout s) : SessOk timeout (extend s r timeout) := by
-  have hst := h.hstop
+theorem merged_rows_mem (timeout : Int) (t : Sess) (os : List Sess) (r x : Row) :
+    x ∈ (merged timeout t os r).rows ↔ x = r ∨ ∃ s ∈ t :: os, x ∈ s.rows := by
+  simp only [merged, List.mem_append, List.mem_flatMap, List.mem_singleton]
+  constructor
+  · rintro (⟨s, hs, hx⟩ | h)
+    · exact Or.inr ⟨s, hs, hx⟩
+    · exact Or.inl h
+  · rintro (h | ⟨s, hs, hx⟩)
+    · exact Or.inr h
+    · exact Or.inl ⟨s, hs, hx⟩
+
+theorem merged_ok (timeout : Int) (t : Sess) (os : List Sess) (r : Row)
+    (hall : ∀ s ∈ t :: os, SessOk timeout s) : SessOk timeout (merged timeout t os r) := by
   refine
-    { hne := by simp [extend]
-      hstop := ?_
+    { hne := by simp [merged]
+      hstop := rfl
       hbounds := ?_
       hmin := ?_
       hmax := ?_ }
-  · simp only [extend]
-    by_cases hl : s.lastActive < r.ts
-    · have : s.stop < r.ts + timeout := by omega
-      simp [hl, this]
-    · simp [hl, hst]
   · intro x hx
-    simp only [extend, List.mem_append, List.mem_singleton] at hx ⊢
-    rcases hx with hx | hx
-    · have := h.hbounds x hx
-      constructor
-      · split <;> omega
-      · split <;> omega
-    · subst hx
-      constructor
-      · split <;> omega
-      · split <;> omega
-  · simp only [extend]
-    by_cases hl : r.ts < s.start
-    · exact ⟨r, by simp, by simp [hl]⟩
-    · obtain ⟨m, hm, hmt⟩ := h.hmin
-      exact ⟨m, by simp [hm], by simp [hl, hmt]⟩
-  · simp only [extend]
-    by_cases hl : s.lastActive < r.ts
-    · exact ⟨r, by simp, by simp [hl]⟩
-    · obtain ⟨m, hm, hmt⟩ := h.hmax
-      exact ⟨m, by simp [hm], by simp [hl, hmt]⟩
+    rcases (merged_rows_mem timeout t os r x).mp hx with h | ⟨s, hs, hxs⟩
+    · subst h
+      exact ⟨minStart_le_init _ _, maxLast_ge_init _ _⟩
+    · have hb := (hall s hs).hbounds x hxs
+      have h1 := minStart_le_mem (t :: os) r.ts s hs
+      have h2 := maxLast_ge_mem (t :: os) r.ts s hs
+      show minStart (t :: os) r.ts ≤ x.ts ∧ x.ts ≤ maxLast (t :: os) r.ts
+      omega
+  · rcases minStart_attained (t :: os) r.ts with h | ⟨s, hs, h⟩
+    · exact ⟨r, (merged_rows_mem timeout t os r r).mpr (Or.inl rfl), h.symm⟩
+    · obtain ⟨m, hm, hmt⟩ := (hall s hs).hmin
+      exact ⟨m, (merged_rows_mem timeout t os r m).mpr (Or.inr ⟨s, hs, hm⟩), by rw [hmt]; exact h.symm⟩
+  · rcases maxLast_attained (t :: os) r.ts with h | ⟨s, hs, h⟩
+    · exact ⟨r, (merged_rows_mem timeout t os r r).mpr (Or.inl rfl), h.symm⟩
+    · obtain ⟨m, hm, hmt⟩ := (hall s hs).hmax
+      exact ⟨m, (merged_rows_mem timeout t os r m).mpr (Or.inr ⟨s, hs, hm⟩), by rw [hmt]; exact h.symm⟩
 
-/-- all open sessions are well-shaped -/
 def AllOk (w : SWin) : Prop := ∀ s ∈ w.sessions, SessOk w.timeout s
 
-theorem replaceHead_mem (l : List Sess) (k : Key) (f : Sess → Sess) (x : Sess) (hx : x ∈ replaceHead l k f) :
-    (x ∈ l ∧ isHead k x = false) ∨ ∃ y ∈ l, isHead k y = true ∧ x = f y := by
-  simp only [replaceHead, List.mem_map] at hx
-  obtain ⟨y, hy, hxy⟩ := hx
-  by_cases hh : isHead k y = true
-  · rw [if_pos hh] at hxy; exact Or.inr ⟨y, hy, hh, hxy.symm⟩
-  · rw [if_neg hh] at hxy; subst hxy; exact Or.inl ⟨hy, by simpa using hh⟩
+/-! ### fates -/
+
+theorem fate_late (w : SWin) (k : Key) (r : Row) (now : Int) (hl : lateNow w r now = true) :
+    (∃ t, fate w k r now = .lateAbsorb t) ∨ fate w k r now = .lateDrop := by
+  unfold fate
+  rw [if_pos hl]
+  split
+  · unfold lateFate; split
+    · exact Or.inl ⟨_, rfl⟩
+    · exact Or.inr rfl
+  · exact Or.inr rfl
+
+theorem fate_ontime (w : SWin) (k : Key) (r : Row) (now : Int) (hl : lateNow w r now = false) :
+    (fate w k r now = .create ∧ touched w k r = []) ∨
+    (∃ t os, fate w k r now = .join t os ∧ touched w k r = t :: os) := by
+  unfold fate
+  rw [if_neg (by simp [hl])]
+  unfold onTimeFate
+  split
+  · rename_i h; exact Or.inl ⟨rfl, h⟩
+  · rename_i t os h; exact Or.inr ⟨t, os, rfl, h⟩
+
+theorem fate_join_touched (w : SWin) (k : Key) (r : Row) (now : Int) (t : Sess) (os : List Sess)
+    (h : fate w k r now = .join t os) : touched w k r = t :: os ∧ lateNow w r now = false := by
+  by_cases hl : lateNow w r now = true
+  · rcases fate_late w k r now hl with ⟨t', h'⟩ | h' <;> rw [h'] at h <;> cases h
+  · have hl' : lateNow w r now = false := by simpa using hl
+    rcases fate_ontime w k r now hl' with ⟨h', _⟩ | ⟨t', os', h', ht⟩
+    · rw [h'] at h; cases h
+    · rw [h'] at h; cases h; exact ⟨ht, hl'⟩
+
+theorem fate_create_touched (w : SWin) (k : Key) (r : Row) (now : Int)
+    (h : fate w k r now = .create) : touched w k r = [] ∧ lateNow w r now = false := by
+  by_cases hl : lateNow w r now = true
+  · rcases fate_late w k r now hl with ⟨t', h'⟩ | h' <;> rw [h'] at h <;> cases h
+  · have hl' : lateNow w r now = false := by simpa using hl
+    rcases fate_ontime w k r now hl' with ⟨_, ht⟩ | ⟨t', os', h', _⟩
+    · exact ⟨ht, hl'⟩
+    · rw [h'] at h; cases h
 
 theorem allOk_add (w : SWin) (k : Key) (r : Row) (now : Int) (h : AllOk w) : AllOk (stepAdd w k r now).1 := by
   intro s hs
@@ -79,46 +230,18 @@ theorem allOk_add (w : SWin) (k : Key) (r : Row) (now : Int) (h : AllOk w) : All
   · simp only [List.mem_append, List.mem_singleton] at hs'
     rcases hs' with hs' | hs'
     · exact h s hs'
-    · subst hs'; exact newSess_ok k r w.timeout
-  · simp only [List.mem_append, List.mem_singleton] at hs'
+    · subst hs'; exact newSess_ok k r w.timeout _
+  · rename_i t os hf
+    simp only [List.mem_append, List.mem_singleton, List.mem_filter] at hs'
     rcases hs' with hs' | hs'
-    · rcases replaceHead_mem _ _ _ _ hs' with ⟨h1, _⟩ | ⟨y, hy, _, rfl⟩
-      · exact h s h1
-      · have := h y hy
-        exact ⟨this.hne, this.hstop, this.hbounds, this.hmin, this.hmax⟩
-    · subst hs'; exact newSess_ok k r w.timeout
-  · rcases replaceHead_mem _ _ _ _ hs' with ⟨h1, _⟩ | ⟨y, hy, _, rfl⟩
-    · exact h s h1
-    · exact extend_ok y r w.timeout (h y hy)
+    · exact h s hs'.1
+    · subst hs'
+      have ht := (fate_join_touched w k r now t os hf).1
+      apply merged_ok
+      intro x hx
+      have : x ∈ touched w k r := by rw [ht]; exact hx
+      exact h x ((mem_touched w k r x).mp this).1
   · exact h s hs'
-
-theorem mem_sortSess (l : List Sess) (x : Sess) : x ∈ sortSess l ↔ x ∈ l := by
-  have hins : ∀ (s : Sess) (m : List Sess) (y : Sess), y ∈ insertSorted s m ↔ y = s ∨ y ∈ m := by
-    intro s m
-    induction m with
-    | nil => intro y; simp [insertSorted]
-    | cons a m ih =>
-      intro y
-      simp only [insertSorted]
-      split
-      · simp
-      · simp only [List.mem_cons, ih]
-        constructor
-        · rintro (h | h | h)
-          · exact Or.inr (Or.inl h)
-          · exact Or.inl h
-          · exact Or.inr (Or.inr h)
-        · rintro (h | h | h)
-          · exact Or.inr (Or.inl h)
-          · exact Or.inl h
-          · exact Or.inr (Or.inr h)
-  induction l with
-  | nil => simp [sortSess]
-  | cons a l ih =>
-    simp only [sortSess, List.foldr_cons] at ih ⊢
-    have ih' : x ∈ List.foldr insertSorted [] l ↔ x ∈ l := ih
-    rw [hins, List.mem_cons]
-    exact ⟨fun h => h.elim Or.inl (fun h => Or.inr (ih'.mp h)), fun h => h.elim Or.inl (fun h => Or.inr (ih'.mpr h))⟩
 
 theorem allOk_expire (w : SWin) (x : Int) (h : AllOk w) : AllOk (stepExpire w x).1 := by
   intro s hs
@@ -163,22 +286,6 @@ theorem count_flatMap_filter_split (l : List Sess) (p : Sess → Bool) (x : Row)
   | cons a l ih =>
     by_cases hp : p a <;> simp [List.filter_cons, hp, List.flatMap_cons, List.count_append] <;> omega
 
-theorem perm_sortSess (l : List Sess) : (sortSess l).Perm l := by
-  have hins : ∀ (s : Sess) (m : List Sess), (insertSorted s m).Perm (s :: m) := by
-    intro s m
-    induction m with
-    | nil => exact List.Perm.refl _
-    | cons a m ih =>
-      simp only [insertSorted]
-      split
-      · exact List.Perm.refl _
-      · exact (List.Perm.cons a ih).trans (List.Perm.swap s a m)
-  induction l with
-  | nil => exact List.Perm.refl _
-  | cons a l ih =>
-    simp only [sortSess, List.foldr_cons] at ih ⊢
-    exact (hins a _).trans (List.Perm.cons a ih)
-
 theorem expire_conserve (w : SWin) (x : Int) (r : Row) :
     (openRows (stepExpire w x).1).count r + (firstRows (stepExpire w x).2).count r = (openRows w).count r := by
   simp only [stepExpire, openRows, firstRows]
@@ -200,185 +307,8 @@ theorem expire_conserve (w : SWin) (x : Int) (r : Row) :
   simp only at h2 ⊢
   omega
 
-end Session
-
-namespace Session
-open Wm
-
-theorem count_replaceHead (l : List Sess) (k : Key) (f : Sess → Sess) (x : Row)
-    (hone : (l.filter (isHead k)).length ≤ 1) (g : Sess → Nat)
-    (hf : ∀ s, isHead k s = true → (f s).rows.count x = s.rows.count x + g s) :
-    ((replaceHead l k f).flatMap (·.rows)).count x
-      = (l.flatMap (·.rows)).count x + ((l.filter (isHead k)).map g).sum := by
-  induction l with
-  | nil => simp [replaceHead]
-  | cons a l ih =>
-    have hone' : (l.filter (isHead k)).length ≤ 1 := by
-      simp only [List.filter_cons] at hone
-      split at hone
-      · simp only [List.length_cons] at hone; omega
-      · exact hone
-    have := ih hone'
-    simp only [replaceHead, List.map_cons, List.flatMap_cons, List.count_append] at this ⊢
-    by_cases hh : isHead k a = true
-    · simp only [hh, if_true, List.filter_cons, List.map_cons, List.sum_cons]
-      rw [hf a hh]
-      omega
-    · simp only [hh, Bool.false_eq_true, if_false, List.filter_cons]
-      omega
-
-/-- at most one head session per key -/
-def HeadsUnique (w : SWin) : Prop := ∀ k, (w.sessions.filter (isHead k)).length ≤ 1
-
-theorem head?_some_filter (w : SWin) (k : Key) (h : Sess) (hu : HeadsUnique w) (hh : head? w k = some h) :
-    w.sessions.filter (isHead k) = [h] := by
-  have h1 : h ∈ w.sessions.filter (isHead k) := by
-    unfold head? at hh
-    exact List.mem_filter.mpr ⟨List.mem_of_find?_eq_some hh, List.find?_some hh⟩
-  have h2 := hu k
-  match hl : w.sessions.filter (isHead k), h1, h2 with
-  | [a], h1, _ => simp only [List.mem_singleton] at h1; rw [h1]
-  | [], h1, _ => cases h1
-  | _ :: _ :: _, _, h2 => simp at h2
-
-theorem head?_none_filter (w : SWin) (k : Key) (hh : head? w k = none) :
-    w.sessions.filter (isHead k) = [] := by
-  unfold head? at hh
-  rw [List.find?_eq_none] at hh
-  exact List.filter_eq_nil_iff.mpr (fun a ha => by simpa using hh a ha)
-
-theorem filter_isHead_replace_park (l : List Sess) (k k' : Key) (n : Nat) (hn : n ≠ 0) :
-    (replaceHead l k (fun s => { s with park := n })).filter (isHead k')
-      = if k' = k then [] else l.filter (isHead k') := by
-  induction l with
-  | nil => simp [replaceHead]
-  | cons a l ih =>
-    simp only [replaceHead, List.map_cons] at ih ⊢
-    by_cases hh : isHead k a = true
-    · simp only [hh, if_true, List.filter_cons]
-      have hak : a.key = k ∧ a.park = 0 := by simpa [isHead] using hh
-      have h1 : isHead k' { a with park := n } = false := by simp [isHead, hn]
-      rw [h1]
-      simp only [Bool.false_eq_true, if_false, ih]
-      by_cases hk : k' = k
-      · simp [hk]
-      · have : isHead k' a = false := by
-          simp only [isHead, Bool.and_eq_false_iff, beq_eq_false_iff_ne]
-          left; rw [hak.1]; exact fun h => hk h.symm
-        simp [hk, this]
-    · simp only [hh, Bool.false_eq_true, if_false, List.filter_cons, ih]
-      by_cases hk : k' = k
-      · subst hk; simp [hh]
-      · simp only [hk, if_false]
-
-theorem filter_isHead_replace_extend (l : List Sess) (k k' : Key) (r : Row) (t : Int) :
-    ((replaceHead l k (fun s => extend s r t)).filter (isHead k')).length = (l.filter (isHead k')).length := by
-  induction l with
-  | nil => simp [replaceHead]
-  | cons a l ih =>
-    simp only [replaceHead, List.map_cons] at ih ⊢
-    by_cases hh : isHead k a = true
-    · simp only [hh, if_true, List.filter_cons]
-      have : isHead k' (extend a r t) = isHead k' a := by simp [isHead, extend]
-      rw [this]
-      split <;> simp [ih]
-    · simp only [hh, Bool.false_eq_true, if_false, List.filter_cons]
-      split <;> simp [ih]
-
-theorem fate_create_none (w : SWin) (k : Key) (r : Row) (now : Int) (h : fate w k r now = .create) :
-    head? w k = none := by
-  unfold fate at h
-  split at h
-  · split at h
-    · unfold lateFate at h; split at h <;> cases h
-    · cases h
-  · unfold onTimeFate at h
-    split at h
-    · assumption
-    · unfold headFate at h; split at h <;> cases h
-
-theorem fate_extend_head (w : SWin) (k : Key) (r : Row) (now : Int) (hd : Sess) (h : fate w k r now = .extendHead hd) :
-    head? w k = some hd := by
-  unfold fate at h
-  split at h
-  · split at h
-    · unfold lateFate at h; split at h <;> cases h
-    · cases h
-  · unfold onTimeFate at h
-    split at h
-    · cases h
-    · rename_i h' hh
-      unfold headFate at h; split at h
-      · cases h
-      · cases h; exact hh
-
-theorem headsUnique_add (w : SWin) (k : Key) (r : Row) (now : Int) (hu : HeadsUnique w) :
-    HeadsUnique (stepAdd w k r now).1 := by
-  intro k'
-  show ((addSessions w k r now).filter (isHead k')).length ≤ 1
-  have hnew : ∀ k', k' ≠ k → isHead k' (newSess k r w.timeout) = false := by
-    intro k' hk
-    simp only [isHead, newSess, Bool.and_eq_false_iff, beq_eq_false_iff_ne]
-    left; exact fun h => hk h.symm
-  have hnewk : isHead k (newSess k r w.timeout) = true := by simp [isHead, newSess]
-  unfold addSessions
-  split
-  · rename_i hf
-    simp only [List.filter_append, List.filter_cons, List.filter_nil]
-    by_cases hk : k' = k
-    · subst hk
-      rw [head?_none_filter w k' (fate_create_none w k' r now hf), hnewk]; simp
-    · rw [hnew k' hk]
-      simp only [Bool.false_eq_true, if_false, List.append_nil]
-      exact hu k'
-  · simp only [List.filter_append, List.filter_cons, List.filter_nil]
-    rw [filter_isHead_replace_park _ _ _ _ (by omega)]
-    by_cases hk : k' = k
-    · subst hk; rw [hnewk]; simp
-    · rw [hnew k' hk]
-      simp only [hk, if_false, Bool.false_eq_true, List.append_nil]
-      exact hu k'
-  · rw [filter_isHead_replace_extend]; exact hu k'
-  · exact hu k'
-
-theorem headsUnique_expire (w : SWin) (x : Int) (hu : HeadsUnique w) : HeadsUnique (stepExpire w x).1 := by
-  intro k
-  simp only [stepExpire]
-  rw [List.filter_filter]
-  have : (w.sessions.filter (fun s => isHead k s && !expiredBy w x s)).length ≤ (w.sessions.filter (isHead k)).length := by
-    have h2 : w.sessions.filter (fun s => isHead k s && !expiredBy w x s)
-        = (w.sessions.filter (isHead k)).filter (fun s => !expiredBy w x s) := by
-      rw [List.filter_filter]
-      apply List.filter_congr
-      intro a _; exact Bool.and_comm _ _
-    rw [h2]
-    exact List.length_filter_le _ _
-  exact Nat.le_trans this (hu k)
-
-/-- a late row never becomes an accepted (on-time) row -/
-theorem fate_late (w : SWin) (k : Key) (r : Row) (now : Int) (hl : lateNow w r now = true) :
-    (∃ t, fate w k r now = .lateAbsorb t) ∨ fate w k r now = .lateDrop := by
-  unfold fate
-  rw [if_pos hl]
-  split
-  · unfold lateFate; split
-    · exact Or.inl ⟨_, rfl⟩
-    · exact Or.inr rfl
-  · exact Or.inr rfl
-
-theorem fate_ontime (w : SWin) (k : Key) (r : Row) (now : Int) (hl : lateNow w r now = false) :
-    fate w k r now = .create ∨ (∃ h, fate w k r now = .park h) ∨ (∃ h, fate w k r now = .extendHead h) := by
-  unfold fate
-  rw [if_neg (by simp [hl])]
-  unfold onTimeFate
-  split
-  · exact Or.inl rfl
-  · unfold headFate; split
-    · exact Or.inr (Or.inl ⟨_, rfl⟩)
-    · exact Or.inr (Or.inr ⟨_, rfl⟩)
-
 /-- an Add puts an on-time row into exactly one open session and leaves every other row where it is -/
-theorem add_conserve (w : SWin) (k : Key) (r : Row) (now : Int) (x : Row) (hu : HeadsUnique w) :
+theorem add_conserve (w : SWin) (k : Key) (r : Row) (now : Int) (x : Row) :
     (openRows (stepAdd w k r now).1).count x + (firstRows (stepAdd w k r now).2).count x
       = (openRows w).count x + (acceptedBy w (.add k r now)).count x := by
   show ((addSessions w k r now).flatMap (·.rows)).count x + (firstRows (addEmit w k r now)).count x
@@ -389,25 +319,18 @@ theorem add_conserve (w : SWin) (k : Key) (r : Row) (now : Int) (x : Row) (hu : 
       simp [addSessions, addEmit, hf, openRows, firstRows]
   · have hl' : lateNow w r now = false := by simpa using hl
     rw [if_neg hl]
-    rcases fate_ontime w k r now hl' with hf | ⟨h, hf⟩ | ⟨h, hf⟩
+    rcases fate_ontime w k r now hl' with ⟨hf, _⟩ | ⟨t, os, hf, ht⟩
     · simp [addSessions, addEmit, hf, openRows, firstRows, newSess, List.flatMap_append, List.count_append]
-    · simp only [addSessions, addEmit, hf, openRows, firstRows, List.flatMap_append, List.count_append,
-        List.filter_nil, List.flatMap_nil, List.count_nil, Nat.add_zero]
-      have := count_replaceHead w.sessions k (fun s => { s with park := w.parkSeq + 1 }) x (hu k) (fun _ => 0)
-        (by intro s _; rfl)
-      rw [this]
-      have hz : ((w.sessions.filter (isHead k)).map (fun _ => 0)).sum = 0 := by
-        generalize w.sessions.filter (isHead k) = l
-        induction l with
-        | nil => rfl
-        | cons a l ih => simp [ih]
-      rw [hz]
-      simp [newSess, List.flatMap_cons]
     · simp only [addSessions, addEmit, hf, openRows, firstRows, List.filter_nil, List.flatMap_nil, List.count_nil,
-        Nat.add_zero]
-      have := count_replaceHead w.sessions k (fun s => extend s r w.timeout) x (hu k) (fun _ => [r].count x)
-        (by intro s _; simp [extend, List.count_append])
-      rw [this, head?_some_filter w k h hu (fate_extend_head w k r now h hf)]
-      simp
+        Nat.add_zero, List.flatMap_append, List.flatMap_cons, List.append_nil, List.count_append]
+      have hm : (merged w.timeout t os r).rows = (touched w k r).flatMap (·.rows) ++ [r] := by
+        rw [ht]; rfl
+      rw [hm, List.count_append]
+      have hp : ((touched w k r).flatMap (·.rows)).count x
+          = ((w.sessions.filter (touches w.timeout k r.ts)).flatMap (·.rows)).count x :=
+        ((perm_sortSess _).flatMap_right _).count_eq x
+      rw [hp]
+      have := count_flatMap_filter_split w.sessions (touches w.timeout k r.ts) x
+      omega
 
 end Session
